@@ -24,7 +24,7 @@ pub const META: PropMeta = PropMeta {
     level: "exploration",
     rule: "cases = every variant of every enum and every struct whose emitted item has no generic parameters, in simulator registries (after ensure_unique_type_paths), Polkadot (call / event / error enums: thousands of variants) and 3 settings (root, alloc path, docs, CompactAs configured or not, global derives and attributes, specific and recursive registrations on the parent type that must NOT leak). For each: create_composite_ir_kind(fields) + CompositeIR::new + upcast_composite(..).to_token_stream(settings) is parsed and compared with the variant inside the emitted enum: field names, order, type tokens (Box included), compact markers; derives == global derives (+ CompactAs iff configured and exactly one non-marker field that is u8..u128 and not compact-marked; a compact-marked one is don't-care), attributes == global attributes. Artifact tier (one batch quick, several thorough): the structs are compiled inside the case module next to the generated root module with parity-scale-codec derives; for reference encodings of each variant, encode(decode::<Enum>(bytes))[1..] must equal encode(decode::<Struct>(bytes[1..])) and both must consume their input. non-trivial = a variant with >= 1 field; distinct by (registry hash, type id, variant).",
     assumptions: &["payload equality in the interpreted tier follows from token-identical field lists plus C01's fidelity of the enum; the artifact tier observes it directly"],
-    required_counters: &["standalone_structs_built", "fields_compared", "compact_fields_seen", "boxed_fields_seen", "compact_as_required", "artifact_payloads_equal", "refused_without_compact_path"],
+    required_counters: &["standalone_structs_built", "fields_compared", "compact_fields_seen", "boxed_fields_seen", "compact_as_required", "artifact_payloads_equal", "refused_without_compact_path", "standalone_compact_markers_checked"],
     floor: (1000, 30_000),
     shards: (16, 16),
 };
@@ -423,6 +423,11 @@ pub fn run(ctx: &mut Ctx) {
         if case % 4 == 0 {
             judge_without_compact_path(ctx, &r, &d, &|id, v| json!({"kind": "c18", "registry": regj, "sdesc": dj, "id": id, "variant": v, "no_compact_path": true}));
         }
+        if d.codec_attrs {
+            // compact markers against the registry itself, with the settings as they are (the enum's
+            // own variant goes through the same renderer and would share a missing marker)
+            judge_compact_markers(ctx, &r, &d, "C18:compact-marker", "(settings as given)", &|id, v| json!({"kind": "c18", "registry": regj, "sdesc": dj, "id": id, "variant": v, "markers_only": true}));
+        }
         if ctx.res.samples.len() < 2 {
             if let Some((t, tokens)) = sink.first() {
                 ctx.sample(json!({"type_id": t.type_id, "variant": t.variant, "standalone_struct": tokens.chars().take(300).collect::<String>()}));
@@ -453,6 +458,12 @@ pub fn replay(ctx: &mut Ctx, v: &serde_json::Value) {
     let r = reg::from_json(&v["registry"]);
     let d: SDesc = serde_json::from_value(v["sdesc"].clone()).expect("sdesc");
     let vv = v.clone();
+    if v["markers_only"].as_bool() == Some(true) {
+        let vv2 = v.clone();
+        judge_compact_markers(ctx, &r, &d, "C18:compact-marker", "(settings as given)", &move |_, _| vv2.clone());
+        ctx.case(0, true);
+        return;
+    }
     if v["no_compact_path"].as_bool() == Some(true) {
         judge_without_compact_path(ctx, &r, &d, &move |_, _| vv.clone());
         ctx.case(0, true);
